@@ -28,4 +28,8 @@ impl BindgenContext {
     { unimplemented!() }
 }
 
+// ir::layout::Layout (the three numbers clang reports)
+#[derive(Clone, Copy)]
+pub struct Layout { pub size: usize, pub align: usize, pub packed: bool }
+
 } // verus!
